@@ -490,6 +490,9 @@ def xyz_reader(reader_class: ReadAndProcessOnTheFly) -> List[np.ndarray]:
     if reader_class.file_object is None:
         return trajectory
     for i, line in enumerate(iter(reader_class.file_object.readline, "")):
+        # the line is still being written, the frame is not ready
+        if line[-1] != "\n":
+            return trajectory
         spl = line.split()
         if i == 0 and spl:
             N_atoms = int(spl[0])
